@@ -141,20 +141,60 @@ Fixpoint do_assigns (c : acfg) (s : st) (ts : Q) (l : list assignment) : st * li
       end
   end.
 
+(** checkExpect: one observation of the `expects` predicate. *)
+Definition check_expect (m : member) (s1 : st) (q0 : nat) : nat * list out * bool :=
+  match m_expect m with
+  | None => (q0, [], true)
+  | Some (tbl, p) =>
+      if negb (has_deps s1 p) then (q0, [], true) else
+      match truthy (eval (env_of s1) p) with
+      | None => (q0, [OReport (m_name m) "err" 1], true)
+      | Some b => match fsm_report tbl q0 (lbl b) with
+                  | Some (q', code) => (q', [OReport (m_name m) (lbl b) code], true)
+                  | None => (q0, [], false)
+                  end
+      end
+  end.
+
+(** checkActivationPeriodEnd + the "stops auditing" judgement. *)
+Definition period_end (m : member) (closing : bool) (q1 : nat) : nat * list out * bool :=
+  if closing then
+    match m_expect m with
+    | None => (q1, [OStop (m_name m)], true)
+    | Some (tbl, _) => match fsm_report tbl q1 "end" with
+                       | Some (q', code) => (q', [OReport (m_name m) "end" code; OStop (m_name m)], true)
+                       | None => (q1, [], false)
+                       end
+    end
+  else (q1, [], true).
+
+(** What the activation condition says in this round: [None] evaluation
+    error, [Some None] dependencies not fresh (nothing to do), [Some (Some w)]
+    the auditor should (not) be auditing. *)
+Definition wanted (final : bool) (s : st) (m : member) : option (option bool) :=
+  if final then Some (Some false)
+  else if has_deps s (m_cond m)
+       then match truthy (eval (env_of s) (m_cond m)) with
+            | None => None
+            | Some b => Some (Some b)
+            end
+       else Some None.
+
+Definition start_ok (m : member) : bool :=
+  match m_expect m with
+  | Some (tbl, _) => match state_name tbl (f_start tbl) with Some _ => true | None => false end
+  | None => true
+  end.
+
+Definition set_ms (s : st) (a : string) (auditing : bool) (q : nat) : st :=
+  with_ms s (upd_ms a (fun x => {| ms_woken := ms_woken x; ms_auditing := auditing; ms_fsm := q |}) (s_ms s)).
+
 (** checkEventForAuditor *)
 Definition visit (c : acfg) (final : bool) (s : st) (ts : Q) (m : member) : st * list out * status :=
   match get_ms (m_name m) (s_ms s) with
   | None => (s, [], Running)
   | Some ms =>
-    let want :=
-      if final then Some (Some false)
-      else if has_deps s (m_cond m)
-           then match truthy (eval (env_of s) (m_cond m)) with
-                | None => None                         (* evaluation error: aborts *)
-                | Some b => Some (Some b)
-                end
-           else Some None in                            (* dependencies not satisfied: nothing to do *)
-    match want with
+    match wanted final s m with
     | None => (s, [], Aborted)
     | Some None => (s, [], Running)
     | Some (Some w) =>
@@ -164,48 +204,18 @@ Definition visit (c : acfg) (final : bool) (s : st) (ts : Q) (m : member) : st *
                 else ms_fsm ms in
       let auditing := ms_auditing ms || starting in
       (* startOfAuditPeriod logs the start state's name: an out-of-range start state panics *)
-      let start_ok := if starting then match m_expect m with
-                                       | Some (tbl, _) => match state_name tbl (f_start tbl) with Some _ => true | None => false end
-                                       | None => true end
-                      else true in
-      if negb start_ok then (s, [OStart (m_name m)], Panicked) else
+      if starting && negb (start_ok m) then (s, [OStart (m_name m)], Panicked) else
       let o_start := if starting then [OStart (m_name m)] else [] in
-      let s0 := with_ms s (upd_ms (m_name m) (fun x => {| ms_woken := ms_woken x; ms_auditing := auditing; ms_fsm := q0 |}) (s_ms s)) in
+      let s0 := set_ms s (m_name m) auditing q0 in
       if negb auditing then (s0, o_start, Running) else
       let '(s1, o1, st1) := do_assigns c s0 ts (m_assigns m) in
       match st1 with
       | Running =>
-          (* checkExpect *)
-          let '(q1, o2, ok2) :=
-            match m_expect m with
-            | None => (q0, [], true)
-            | Some (tbl, p) =>
-                if negb (has_deps s1 p) then (q0, [], true) else
-                match truthy (eval (env_of s1) p) with
-                | None => (q0, [OReport (m_name m) "err" 1], true)
-                | Some b => match fsm_report tbl q0 (lbl b) with
-                            | Some (q', code) => (q', [OReport (m_name m) (lbl b) code], true)
-                            | None => (q0, [], false)
-                            end
-                end
-            end in
+          let '(q1, o2, ok2) := check_expect m s1 q0 in
           if negb ok2 then (s1, o_start ++ o1 ++ o2, Panicked) else
-          (* checkActivationPeriodEnd *)
-          let '(q2, o3, ok3) :=
-            if closing then
-              match m_expect m with
-              | None => (q1, [OStop (m_name m)], true)
-              | Some (tbl, _) => match fsm_report tbl q1 "end" with
-                                 | Some (q', code) => (q', [OReport (m_name m) "end" code; OStop (m_name m)], true)
-                                 | None => (q1, [], false)
-                                 end
-              end
-            else (q1, [], true) in
+          let '(q2, o3, ok3) := period_end m closing q1 in
           if negb ok3 then (s1, o_start ++ o1 ++ o2 ++ o3, Panicked) else
-          let s2 := with_ms s1 (upd_ms (m_name m)
-                      (fun x => {| ms_woken := ms_woken x; ms_auditing := if closing then false else auditing; ms_fsm := q2 |})
-                      (s_ms s1)) in
-          (s2, o_start ++ o1 ++ o2 ++ o3, Running)
+          (set_ms s1 (m_name m) (if closing then false else auditing) q2, o_start ++ o1 ++ o2 ++ o3, Running)
       | stt => (s1, o_start ++ o1, stt)
       end
     end
